@@ -133,7 +133,12 @@ func genFAR(r *vh.Rng, create bool) *vh.IE {
 			}
 		}
 		if r.Chance(1, 3) {
-			fp = append(fp, vh.FwdPolicy([]string{"p", "policy-1", "0123456789abcdef", ""}[r.Intn(4)]))
+			pol := []string{"p", "policy-1", "0123456789abcdef", ""}[r.Intn(4)]
+			if r.Chance(1, 3) {
+				// lengths up to what the one-octet length field allows (the identifier is opaque to the UPF)
+				pol = strings.Repeat("q", []int{63, 64, 127, 128, 253, 254, 255}[r.Intn(7)])
+			}
+			fp = append(fp, vh.FwdPolicy(pol))
 		}
 		if r.Chance(1, 3) {
 			fp = append(fp, vh.SMReqFlags(uint8(r.Intn(8))))
